@@ -12,7 +12,7 @@ DIRS=("$@")
 for d in "${DIRS[@]}"; do
   name=$(basename "$d")
   git -C "$WT" checkout -q -- .
-  if ! git -C "$WT" apply "$d/patch.diff" 2>/dev/null; then echo "$name: PATCH DOES NOT APPLY"; continue; fi
+  if ! git -C "$WT" apply "$d/patch.diff" 2>/dev/null; then git -C "$WT" checkout -q -- .; if ! git -C "$WT" apply -3 "$d/patch.diff" >/dev/null 2>&1 || git -C "$WT" diff --name-only --diff-filter=U | grep -q .; then echo "$name: PATCH DOES NOT APPLY"; git -C "$WT" reset -q --hard; continue; fi; git -C "$WT" reset -q; fi
   out=$(cd /verif && VERIF_REPO="$WT" VERIF_EVIDENCE_DIR=/tmp/bw/ev VERIF_REPLAY_DIR=/tmp/bw/rp ./run_check.sh "$PROP" quick 2>&1)
   rc=$?
   v=$(echo "$out" | grep -c '^VIOLATION')
